@@ -335,6 +335,6 @@ def check(ctx):
     from .engine import import_rules
     # storage-layer integrity rules that the map semantics depend on (corruption of a record, chain or free list changes what get returns)
     import_rules(ctx, "c05", {"insert-links", "overwrite-links", "delete-links", "bucket-index", "field-position", "count-step", "count-arm", "count-writers", "stored-length-read", "payload-is-callers-bytes"})
-    import_rules(ctx, "c06", {"free-slot-field-position", "no-lost-link-update", "large-pop-conservation", "large-pop", "push-pop-inverse", "alloc", "writer-arms", "tables", "class-slot", "delete-pushes-slot"})
+    import_rules(ctx, "c06", {"free-slot-field-position", "no-lost-link-update", "large-pop-conservation", "large-pop", "push-pop-inverse", "alloc", "writer-arms", "tables", "class-slot", "large-threshold", "delete-pushes-slot"})
     import_rules(ctx, "c08", {"relink", "abort"})
     import_rules(ctx, "c09", {"sizer-covers-writer", "slot-honoured", "vu64-reader-consumes-encoded-length"})
